@@ -93,6 +93,17 @@ const (
 	// listed, result cells fed by such a family may be absent and their values are not checked.
 	sigNotFoundHides   = "C10/family-filter-not-found-hides-files" // repaired in /repo (569f143)
 	sigReadDuringWrite = "C11/memdb-query-overlapping-a-write-misses-completed-points"
+	// tsdb/memdb/time_series_index.go Load tests "container not found" with == -1, roaring answers
+	// -(insertion point + 1): a statement that matches a series of a container the shard's in-memory
+	// series map of the metric does not hold, while the map holds a lower container and a matched
+	// series, fails with "index out of range [-2]" (metric with > 65536 series after a restart).
+	sigMemLoadContainer = "C11/memdb-load-container-above-those-in-memory-panics"
+	// tsdb/memdb/time_series_index.go Load reads the write page of a series through the *fieldEntry of
+	// the filter result set (fm.Reset(page)); the data load tasks of the series-id containers of one
+	// statement run concurrently and share these entries, so a task reads the page the other one just
+	// set: a series shows another series' values (schedule dependent). While listed, statements for
+	// which one memory database holds a selected field for matched series of >= 2 containers are not run.
+	sigMemParallelLoad = "C11/memdb-parallel-container-loads-share-page-reader"
 )
 
 // Every engine gets its own database name: lindb keeps worker-pool gauges (WorkersAlive) in a
@@ -116,6 +127,9 @@ type metricDef struct {
 	Fields []fieldDef          `json:"fields"`
 	Series []map[string]string `json:"series"`
 	Keys   []string            `json:"keys"` // tag keys every series carries
+	// IDPlan (optional, strictly increasing, one entry per series): the k-th series of the metric that is
+	// created in the shard's index gets the series id IDPlan[k] (see sparse_test.go); nil = 0, 1, 2, ...
+	IDPlan []uint32 `json:"series_ids,omitempty"`
 }
 
 type fieldVal struct {
@@ -173,6 +187,11 @@ type env struct {
 	lastTick int64
 
 	registered map[string]bool
+
+	seriesIDs  map[string]map[string]uint32 // metric -> tags key -> series id in the shard's index
+	planned    map[string]bool              // metric has a series id plan
+	memIDs     map[string]map[uint32]bool   // metric -> series ids written since the engine was started (the shard's in-memory series map)
+	mergedUpTo map[int64]int                // family -> memory database generations below this one were merged by a compaction
 
 	lastNotFound string // text of the "not found" error the last query returned ("" = none)
 
@@ -389,8 +408,20 @@ func (e *env) write(metrics []metricDef, rows []rowSpec) error {
 		if creates {
 			e.waitTick()
 		}
-		if err := e.n.Write(e.db, 0, ms); err != nil {
-			return err
+		// one production write call, unless the rows create series of a metric with a series id plan
+		// (see sparse_test.go): then the batch is cut in front of such a row
+		at := 0
+		for _, ch := range e.planSeriesIDs(metrics, byFam[f]) {
+			if err := e.applySeriesIDs(ch.assign); err != nil {
+				return err
+			}
+			if err := e.n.Write(e.db, 0, ms[at:at+ch.n]); err != nil {
+				return err
+			}
+			at += ch.n
+			if err := e.verifySeriesIDs(ch.assign); err != nil {
+				return err
+			}
 		}
 		if creates {
 			e.noteTick()
@@ -465,6 +496,10 @@ func (e *env) compact(f int64) (bool, error) {
 	if ok {
 		e.files[f] = 1
 		e.compacts++
+		if e.mergedUpTo == nil {
+			e.mergedUpTo = map[int64]int{}
+		}
+		e.mergedUpTo[f] = e.gen[f]
 	}
 	return ok, nil
 }
@@ -476,6 +511,7 @@ func (e *env) reopen() error {
 	}
 	e.reopens++
 	e.registered = nil
+	e.memIDs = nil
 	e.observers = nil
 	return e.start()
 }
@@ -541,6 +577,12 @@ func currentSemantics() semantics {
 // flush-window tests, where the immutable memory database is observable).
 func (e *env) checkQueryWith(t failer, q mQuery, history func() string, placeOf func(p mPoint) string) (classes []string, nonTrivial bool) {
 	sqlText := q.sql()
+	if ev.Known(sigMemLoadContainer) && e.memLoadContainerShape(q) {
+		return []string{"excluded_known:" + sigMemLoadContainer}, false
+	}
+	if ev.Known(sigMemParallelLoad) && e.memParallelLoadShape(q) {
+		return []string{"excluded_known:" + sigMemParallelLoad}, false
+	}
 	got, gotIv, err := e.query(sqlText)
 	if err != nil {
 		t.Fatalf("query failed: %s\n  error: %v\n%s", sqlText, err, history())
@@ -582,6 +624,7 @@ func (e *env) checkQueryWith(t failer, q mQuery, history func() string, placeOf 
 		classes = append(classes, "placement="+strings.Join(pls, "+"))
 	}
 	classes = append(classes, shapeClasses(contributing, e.S)...)
+	classes = append(classes, e.seriesIDClasses(q)...)
 	fams := map[int64]bool{}
 	multiFile, compacted := false, false
 	for _, p := range contributing {
@@ -903,6 +946,7 @@ func genSchema(t *rapid.T) schema {
 		}
 		sc.Metrics = append(sc.Metrics, md)
 	}
+	addIDPlans(t, &sc, 2, 5)
 	return sc
 }
 
@@ -1273,7 +1317,14 @@ func describe(sc schema, ops []opSpec, upto int) string {
 	var b strings.Builder
 	fmt.Fprintf(&b, "  storage interval %dms, families %v\n", sc.S, fmtTimes(sc.Fams))
 	for _, md := range sc.Metrics {
-		fmt.Fprintf(&b, "  metric %s fields %v series %v\n", md.Name, md.Fields, md.Series)
+		if len(md.Series) > 64 {
+			fmt.Fprintf(&b, "  metric %s fields %v series %v ... %v (%d, created in this order)\n", md.Name, md.Fields, md.Series[:2], md.Series[len(md.Series)-1], len(md.Series))
+		} else {
+			fmt.Fprintf(&b, "  metric %s fields %v series %v\n", md.Name, md.Fields, md.Series)
+		}
+		if md.IDPlan != nil {
+			fmt.Fprintf(&b, "         series ids in creation order %v\n", md.IDPlan)
+		}
 	}
 	for i, op := range ops {
 		if i > upto {
@@ -1282,7 +1333,13 @@ func describe(sc schema, ops []opSpec, upto int) string {
 		switch op.Kind {
 		case "write":
 			fmt.Fprintf(&b, "  %2d write\n", i)
-			for _, r := range op.Rows {
+			for ri, r := range op.Rows {
+				if len(op.Rows) > 64 && ri >= 3 && ri < len(op.Rows)-2 {
+					if ri == 3 {
+						fmt.Fprintf(&b, "       ... %d rows in all ...\n", len(op.Rows))
+					}
+					continue
+				}
 				fmt.Fprintf(&b, "       %s %v @%s (%d) %v", sc.Metrics[r.M].Name, sc.Metrics[r.M].Series[r.S], timeOf(r.TS).Format("2006-01-02 15:04:05.000"), r.TS, r.Vals)
 				if r.Hist != nil {
 					fmt.Fprintf(&b, " histogram %+v", *r.Hist)
